@@ -7,6 +7,7 @@ import DTML.Batch
 import DTML.Gen
 import DTML.GenCode
 import DTML.Basic
+import DTML.Lemmas.InBatchGen
 set_option linter.unusedVariables false
 namespace DTML.Props.C11
 open DTML DTML.Batch
@@ -506,5 +507,160 @@ example : prevBatches 3 1 1 ⟨10, false⟩ 10 4 = [(0, 1, 2), (1, 3, 3)] := by 
 example : follow 3 1 1 ⟨7, false⟩ 7 1 = [(1, 3), (3, 5), (5, 7)] := by decide
 example : followPrev 3 1 1 ⟨7, false⟩ 7 5 = [5, 3, 1] := by decide
 example : window 1 9 0 0 ⟨7, false⟩ = (1, 7, 9) := by decide
+
+/-! ### The prologue of `renderwb` and `int_param` are those of the source
+
+`GenIn.intParamGen`, `inBatchParamCalls`, `inBatchWindowGen`, `inBatchWinGen`, `inBatchVarsGen`, `inBatchModeGen`,
+`inBatchFirstGen` / `inBatchSecondGen` are regenerated on every run (harness/trans_in.py, `generate_window`) from `int_param`
+and from the statements of `InClass.renderwb` before the loop: `int_param` statement by statement (the `try: v = params[name]
+except: v = default`, `if v:`, `try: v = int(v) except Exception:`, `v = md[v]`, `if type(v) is st: v = int(v)`, `return v`), the
+five `int_param(params, md, KEY, DEFAULT)` calls in their order with the handler around the first, the arguments of
+`opt(…)`, the clamp `try: sequence[end - 1] except IndexError: end = len(sequence)`, the bounds of `range(first, end)`, the seven
+`pkw['sequence-step-…'] = …` stores, `if previous: … elif next: …` with the flags `'previous' in params` / `'next' in params`, the
+tests `first > 0` / `try: sequence[end]`, the two `opt(…)` calls and the stores of the two branches. -/
+section GenPrologue
+open DTML.Render DTML.GenIn DTML.Lemmas.InBatchGen
+
+/-- a parameter given as a numeral is that number -/
+theorem gen_int_param_literal (env : Env) (fuel : Nat) (params : Text → Option Param) (name : Text) (d : Val) (st : St) (i : Int)
+    (h : params name = some (.lit i)) : intParamGen env fuel params name d st = (.ok (.int i), st) :=
+  int_param_lit env fuel params name d st i h
+
+/-- the calls of `renderwb`: the five parameters in the order in which the model resolves them (`InXOpts.names`: start, end,
+size, overlap, orphan), the defaults `0` … `'0'`, `except Exception: start = 1` around the first only -/
+theorem gen_in_param_calls :
+    inBatchParamCalls = [("start", .int 0, some 1), ("end", .int 0, none), ("size", .int 0, none), ("overlap", .int 0, none),
+      ("orphan", .str "0".toList, none)] := rfl
+
+/-- a parameter that is not given reads as 0 (`BatchP`'s "0 = not given") with the default of every call -/
+theorem gen_int_param_default (env : Env) (fuel : Nat) (params : Text → Option Param) (st : St)
+    (c : String × Val × Option Int) (hc : c ∈ inBatchParamCalls) (h : params c.1.toList = none) :
+    intParamGen env fuel params c.1.toList c.2.1 st = (.ok (.int 0), st) := by
+  rw [gen_in_param_calls] at hc
+  simp only [List.mem_cons, List.not_mem_nil, or_false] at hc
+  rcases hc with rfl | rfl | rfl | rfl | rfl <;>
+    exact int_param_absent env fuel params _ _ st h (by first | exact Or.inl rfl | exact Or.inr rfl)
+
+/-- a parameter given by the name of a variable: the model's `getitem` and `paramInt` (a string is converted, a failed
+conversion raises, anything that is not a string is handed on as it is) -/
+theorem gen_int_param_name_is_model (env : Env) (fuel : Nat) (params : Text → Option Param) (name n : Text) (d : Val) (st : St)
+    (h : params name = some (.name n)) (hn : n ≠ []) :
+    intParamGen env fuel params name d st =
+      match getitem env fuel n true st with
+      | (.ok v, st') =>
+        (match paramInt v with
+         | .ok i => (.ok (match v with | .str _ => .int i | v => v), st')
+         | .bad => (.ok v, st')
+         | .valueError => (.raise intError, st'))
+      | (.raise e, st') => (.raise e, st')
+      | (.ret v, st') => (.ret v, st')
+      | (.oom, st') => (.oom, st') :=
+  int_param_name env fuel params name n d st h hn
+
+/-- **one step of the model's `resolveNames` is the translated `int_param`**: the value `opt()` can compute with (an int, a
+bool) is stored in the parameters, anything else sets the TypeError flag, an exception propagates - except for `start`,
+where it is swallowed and 1 taken (`inBatchParamCalls`: the handler around the first call) -/
+theorem gen_int_param_is_model (env : Env) (fuel : Nat) (params : Text → Option Param) (p n : Text) (d : Val)
+    (rest : List (Text × Text)) (bp : BatchP) (bad : Bool) (st : St)
+    (h : params p = some (.name n)) (hn : n ≠ []) :
+    resolveNames env (fuel + 1) ((p, n) :: rest) bp bad st =
+      match intParamGen env fuel params p d st with
+      | (.ok v, st') =>
+        (match valPInt v with
+         | some i => resolveNames env fuel rest (setParam bp p i) bad st'
+         | none => resolveNames env fuel rest bp true st')
+      | (.raise e, st') =>
+        if p == "start".toList then resolveNames env fuel rest (setParam bp p 1) bad st' else (.raise e, st')
+      | (.ret v, st') =>
+        if p == "start".toList then resolveNames env fuel rest (setParam bp p 1) bad st' else (.ret v, st')
+      | (.oom, st') => (.oom, st') :=
+  resolve_step env fuel params p n d rest bp bad st h hn
+
+/-- the hypotheses are satisfiable -/
+example : ∃ (params : Text → Option Param) (n : Text), params "size".toList = some (.name n) ∧ n ≠ [] :=
+  ⟨fun _ => some (.name "n".toList), "n".toList, rfl, by decide⟩
+
+/-- **the window**: `opt(start, end, size, orphan, sequence)` with the arguments in the order of the source, then the
+clamp of `end`, is `Batch.window` -/
+theorem gen_in_window_is_model (start end_ size overlap orphan : Int) (s : Seq) :
+    inBatchWindowGen start end_ size overlap orphan s = window start end_ size orphan s := by
+  simp only [inBatchWindowGen, gen_opt_is_model, window]
+
+/-- `range(first, end)` and the parameters the loop reads are the model's `bwinOf` -/
+theorem gen_in_bwin_is_model (bp : BatchP) (len : Nat) :
+    let w := inBatchWindowGen bp.start bp.end_ bp.size bp.overlap bp.orphan ⟨len, false⟩
+    inBatchWinGen bp.start bp.end_ bp.size bp.overlap bp.orphan w.1 w.2.1 w.2.2 = bwinOf bp len := by
+  simp only [gen_in_window_is_model, inBatchWinGen, bwinOf]
+
+/-- the `sequence-step-*` stores before anything is rendered are the model's `batchInit` (on the dictionary
+`sequence_variables` starts with: previous-sequence = next-sequence = 0) -/
+theorem gen_in_batch_vars_is_model (bp : BatchP) (len : Nat) (sv : SeqVars) (hl : 1 ≤ len) (ho : 0 ≤ bp.orphan) :
+    let w := inBatchWindowGen bp.start bp.end_ bp.size bp.overlap bp.orphan ⟨len, false⟩
+    inBatchVarsGen ((sv.set (txt "previous-sequence") (.int 0)).set (txt "next-sequence") (.int 0))
+      bp.start bp.end_ bp.size bp.overlap bp.orphan w.1 w.2.1 w.2.2 = batchInit sv (bwinOf bp len) := by
+  have h := opt_window bp.start bp.end_ bp.size bp.orphan ⟨len, false⟩ (by show (1 : Int) ≤ (len : Int); omega) ho
+  simp only at h
+  simp only [gen_in_window_is_model, inBatchVarsGen, batchInit, bwinOf]
+  generalize window bp.start bp.end_ bp.size bp.orphan ⟨len, false⟩ = w at h ⊢
+  obtain ⟨h1, h2, h3⟩ := h
+  have e1 : (((w.1 - 1).toNat : Nat) : Int) = w.1 - 1 := by omega
+  have e2 : ((w.2.1.toNat : Nat) : Int) = w.2.1 := by omega
+  simp only [Int.ofNat_eq_natCast, e1, e2, Int.sub_add_cancel]
+
+/-- the hypotheses are satisfiable -/
+example : (1 : Nat) ≤ 5 ∧ (0 : Int) ≤ ({ start := 2, size := 2 } : BatchP).orphan := by decide
+
+/-- `if previous: … elif next: … else:` - `previous` wins, the flags are the presence of the attributes -/
+theorem gen_in_mode_is_model (has : Text → Bool) :
+    inBatchModeGen has = if has (txt "previous") then (0, txt "previous") else if has (txt "next") then (1, txt "next")
+      else (2, []) := rfl
+
+/-- **the `previous` rendering**: the section when `first > 0`, with the previous batch `opt(0, first + overlap, sz, orphan)`
+stored as the model's `prevInfo`; the else section otherwise -/
+theorem gen_in_previous_is_model (sv : SeqVars) (w : BWin) :
+    inBatchFirstGen sv w = if w.first > 0 then some (prevInfo sv w true) else none := first_eq sv w
+
+/-- **the `next` rendering**: the section when `sequence[end]` exists, with the next batch `opt(end + 1 - overlap, 0, sz,
+orphan)` stored as the model's `nextInfo`; the else section otherwise -/
+theorem gen_in_next_is_model (sv : SeqVars) (w : BWin) :
+    inBatchSecondGen sv w = if moreAfter sv w then some (nextInfo sv w true) else none := second_eq sv w
+
+/-- the two branches in the interpreter: a `previous` tag is rendered as the first branch says … -/
+theorem gen_in_previous_is_inBatch (env : Env) (fuel : Nat) (sv0 : SeqVars) (o : InOpts) (bp : BatchP) (w : BWin)
+    (body : List Blk) (els : Option (List Blk)) (cache : List Frame) (st : St) (hp : bp.previous = true) :
+    inBatch env (fuel + 1) sv0 o bp w body els cache st =
+      popFrames (cache.length + 1) (singleRender env fuel body els cache { sv0 with noIndex := true }
+        (inBatchFirstGen { sv0 with noIndex := true } w) st) :=
+  inBatch_previous env fuel sv0 o bp w body els cache st hp
+
+/-- … and a `next` tag (without `previous`) as the second -/
+theorem gen_in_next_is_inBatch (env : Env) (fuel : Nat) (sv0 : SeqVars) (o : InOpts) (bp : BatchP) (w : BWin)
+    (body : List Blk) (els : Option (List Blk)) (cache : List Frame) (st : St) (hp : bp.previous = false) (hn : bp.next = true) :
+    inBatch env (fuel + 1) sv0 o bp w body els cache st =
+      popFrames (cache.length + 1) (singleRender env fuel body els cache { sv0 with noIndex := true }
+        (inBatchSecondGen { sv0 with noIndex := true } w) st) :=
+  inBatch_next env fuel sv0 o bp w body els cache st hp hn
+
+/-- **the branches announce the neighbours of `Batch.links`**: the section of a `previous` tag is rendered exactly when
+`links.prevFlag`, that of a `next` tag exactly when `links.nextFlag`, and the numbers stored are `links`' -/
+theorem gen_in_single_is_links (sv : SeqVars) (w : BWin) :
+    let l := links ((w.first : Int) + 1) w.stop w.sz w.orphan w.overlap ⟨sv.items.length, false⟩
+    ((inBatchFirstGen sv w).isSome = l.prevFlag) ∧ ((inBatchSecondGen sv w).isSome = l.nextFlag) ∧
+    inBatchFirstVarsGen sv w = (((sv.set (txt "previous-sequence") (.int 1)).set (txt "previous-sequence-start-index")
+      (.int (l.prevStart - 1))).set (txt "previous-sequence-end-index") (.int (l.prevEnd - 1))).set
+      (txt "previous-sequence-size") (.int (l.prevEnd + 1 - l.prevStart)) ∧
+    inBatchSecondVarsGen sv w = (((sv.set (txt "next-sequence") (.int 1)).set (txt "next-sequence-start-index")
+      (.int (l.nextStart - 1))).set (txt "next-sequence-end-index") (.int (l.nextEnd - 1))).set
+      (txt "next-sequence-size") (.int (l.nextEnd + 1 - l.nextStart)) := by
+  have e0 : (w.first : Int) + 1 - 1 = (w.first : Int) := by omega
+  refine ⟨?_, ?_, ?_, ?_⟩
+  · rw [first_eq]
+    by_cases h : w.first > 0 <;> simp [links, h, e0] <;> omega
+  · rw [second_eq]
+    by_cases h : w.stop < sv.items.length <;> simp [links, moreAfter, probe, h] <;> omega
+  · simp only [inBatchFirstVarsGen, links, e0]
+  · simp only [inBatchSecondVarsGen, links]
+
+end GenPrologue
 
 end DTML.Props.C11
